@@ -12,6 +12,14 @@ Decided (structural necessary conditions on the kernels of tensor / sptensor / k
           taking operand.factor_matrices alone silently drops the weights
   FOLD    every sumtensor kernel combines parts[0] with all of parts[1:] (or iterates over all parts)
   REP     Kruskal kernels read weights AND factors, Tucker kernels core AND factors, sparse kernels subs, vals AND shape
+  DTYPE   a result / accumulator array allocated with the element type of ONE operand (np.zeros(.., dtype=X.dtype)) only
+          receives values computed from that operand: numpy casts silently on item assignment, so values that also
+          depend on another operand (float factors into an integer tensor's accumulator) would be truncated
+          (checked in every method of the tensor classes; positive fixture on every run)
+  WDEG    homogeneity degree (E9, pv/degree.py): every listed kernel of tensor / sptensor / ktensor / ttensor returns a value
+          that is homogeneous of degree 1 in the operand's own values (data, vals, Kruskal weights, Tucker core), computed
+          like a physical dimension through products, sums, re-arrangements and calls of sibling kernels; a different
+          degree means the weights / core were applied twice or dropped, a MIXED one that a constant was added
   SC      dense look-ups by subscript arrays are normalised before use (single stored entry)
 Not decided: any kernel's numbers; both sides of the 50 % densification switch; empty / scalar results.
 """
@@ -187,11 +195,165 @@ def fold(prog: Program, res: Result) -> None:
             res.undecided("FOLD", fi.short, desc, prog.loc(fi))
 
 
+DTYPE_FIXTURE = """
+def kernel(self, U, n):
+    V = np.zeros((3, 2), dtype=self.data.dtype)
+    W = np.zeros((3, 2), dtype=self.data.dtype)
+    for r in range(2):
+        V[:, [r]] = self.data[:, :, r].T @ U[r]
+        W[:, r] = self.data[:, 0, r]
+    return V, W
+"""
+
+
+def _value_names(e: ast.AST):
+    """Names whose VALUES can flow into the value of e: the index of a subscript only selects, it is not followed."""
+    if isinstance(e, ast.Subscript):
+        yield from _value_names(e.value)
+        return
+    if isinstance(e, ast.Name) and isinstance(e.ctx, ast.Load):
+        yield e.id
+    for c in ast.iter_child_nodes(e):
+        yield from _value_names(c)
+
+
+def _roots(fn: ast.FunctionDef) -> Dict[str, Set[str]]:
+    """local name -> operands (parameters; `self.attr` counts as `self`) it may depend on, flow-insensitive."""
+    params = [a.arg for a in fn.args.args + fn.args.kwonlyargs] + ([fn.args.vararg.arg] if fn.args.vararg else [])
+    prov: Dict[str, Set[str]] = {p: {p} for p in params}
+    defs = []
+    for n in ast.walk(fn):
+        if isinstance(n, ast.Assign):
+            for t in n.targets:
+                for x in ast.walk(t):
+                    if isinstance(x, ast.Name) and isinstance(x.ctx, ast.Store):
+                        defs.append((x.id, n.value))
+                # item stores feed the container too
+                if isinstance(t, ast.Subscript) and isinstance(t.value, ast.Name):
+                    defs.append((t.value.id, n.value))
+        elif isinstance(n, ast.AugAssign):
+            t = n.target
+            if isinstance(t, ast.Name):
+                defs.append((t.id, n.value))
+            elif isinstance(t, ast.Subscript) and isinstance(t.value, ast.Name):
+                defs.append((t.value.id, n.value))
+        elif isinstance(n, (ast.For, ast.comprehension)):
+            for x in ast.walk(n.target):
+                if isinstance(x, ast.Name):
+                    defs.append((x.id, n.iter))
+    changed = True
+    while changed:
+        changed = False
+        for name, val in defs:
+            if name in params:
+                continue
+            src: Set[str] = set()
+            for x in _value_names(val):
+                src |= prov.get(x, set())
+            if not src <= prov.get(name, set()):
+                prov.setdefault(name, set()).update(src)
+                changed = True
+    return prov
+
+
+def dtype_rule(prog: Program, res: Result, tree: Optional[ast.AST] = None) -> int:
+    n_sites = 0
+    if tree is None:
+        items = [(fi.short, fi.node, fi) for q, fi in sorted(prog.functions.items())
+                 if not fi.parent and fi.module in ("pyttb.tensor", "pyttb.sptensor", "pyttb.ktensor", "pyttb.ttensor", "pyttb.sumtensor",
+                                                    "pyttb.tenmat", "pyttb.sptenmat")]
+    else:
+        items = [("fixture", [x for x in ast.walk(tree) if isinstance(x, ast.FunctionDef)][0], None)]
+    for short, fn, fi in items:
+        allocs = []
+        for a in ast.walk(fn):
+            if isinstance(a, ast.Assign) and len(a.targets) == 1 and isinstance(a.targets[0], ast.Name) and isinstance(a.value, ast.Call) \
+                    and (dotted(a.value.func) or "").split(".")[-1] in ("zeros", "empty", "ones", "full", "zeros_like", "empty_like"):
+                dt = kwarg(a.value, "dtype")
+                if dt is None:
+                    continue
+                owners = {x.id for x in ast.walk(dt) if isinstance(x, ast.Name)}
+                if not (isinstance(dt, ast.Attribute) and dt.attr == "dtype" and owners):
+                    continue
+                allocs.append((a, a.targets[0].id, dt))
+        if not allocs:
+            continue
+        prov = _roots(fn)
+        for a, name, dt in allocs:
+            owner = set()
+            for x in ast.walk(dt):
+                if isinstance(x, ast.Name):
+                    owner |= prov.get(x.id, {x.id})
+            stores = []
+            for st in ast.walk(fn):
+                tgt = None
+                if isinstance(st, ast.Assign) and isinstance(st.targets[0], ast.Subscript) and isinstance(st.targets[0].value, ast.Name) \
+                        and st.targets[0].value.id == name:
+                    tgt = st
+                elif isinstance(st, ast.AugAssign) and ((isinstance(st.target, ast.Subscript) and isinstance(st.target.value, ast.Name) and st.target.value.id == name)
+                                                        or (isinstance(st.target, ast.Name) and st.target.id == name)):
+                    tgt = st
+                if tgt is not None:
+                    stores.append(tgt)
+            if not stores:
+                continue
+            n_sites += 1
+            desc = f"`{name}` typed by `{ast.unparse(dt)}` only receives values computed from that operand"
+            where = prog.loc(fi, a) if fi is not None else "fixture"
+            foreign = None
+            for st in stores:
+                d: Set[str] = set()
+                for x in _value_names(st.value):
+                    d |= prov.get(x, set())
+                if d - owner:
+                    foreign = (st, sorted(d - owner))
+                    break
+            if foreign:
+                res.bad("DTYPE", short, desc, where,
+                        f"`{ast.unparse(foreign[0])[:80]}` stores values that also depend on {foreign[1]}: numpy casts them to {ast.unparse(dt)} "
+                        "without a warning (a float product stored into an integer tensor's accumulator is truncated)")
+            else:
+                res.ok("DTYPE", short, desc, where)
+    return n_sites
+
+
+WDEG_TABLE = {
+    ("ktensor", "weights"): ["full", "double", "to_tensor", "innerprod", "mttkrp", "ttv", "mask", "norm"],
+    ("ttensor", "core"): ["full", "double", "to_tensor", "innerprod", "mttkrp", "ttv", "ttm", "norm", "reconstruct"],
+    ("tensor", "data"): ["ttv", "mttkrp", "innerprod", "norm", "contract", "ttt", "scale", "to_tenmat", "double"],
+    ("sptensor", "vals"): ["norm", "contract", "scale", "to_sptenmat", "double", "mask", "extract"],
+}
+
+
+def wdeg(prog: Program, res: Result) -> None:
+    from fractions import Fraction
+    from .. import degree as D
+    for (cls, field), names in WDEG_TABLE.items():
+        meths = {fi.name: fi.node for q, fi in prog.functions.items() if fi.cls == cls and not fi.parent and fi.module == "pyttb." + cls}
+        dg = D.DegreeOf(meths, field)
+        for n in names:
+            fi = prog.func(f"{cls}.{cls}.{n}")
+            d = dg.method_degree(n)
+            desc = f"the result is homogeneous of degree 1 in self.{field}"
+            if d == Fraction(1) or d == D.POLY:
+                res.ok("WDEG", fi.short, desc, prog.loc(fi))
+            elif d is None:
+                res.undecided("WDEG", fi.short, desc, prog.loc(fi), "an expression outside the degree table")
+            elif d == D.MIXED:
+                res.bad("WDEG", fi.short, desc, prog.loc(fi),
+                        f"terms of different degree in self.{field} are added (or different return sites disagree): the result is not a multilinear "
+                        "function of the operand")
+            else:
+                res.bad("WDEG", fi.short, desc, prog.loc(fi),
+                        f"the result has degree {D.fmt(d)} in self.{field}: scaling the operand by c scales the result by c**{D.fmt(d)} "
+                        f"({'the ' + field + ' are never applied' if d == 0 else 'they are applied more than once'})")
+
+
 def check(prog: Program, res: Result, tier: str) -> None:
     res.explanation = __doc__.split("\n\n", 1)[1]
     res.assumptions = ["tt_dimscheck contract (C17): dims sorted, vidx[j] = position of the multiplicand that belongs to dims[j]",
                        "khatrirao(reverse=True) over an ascending factor list matches the F-order unfolding (C17 KRAX)"]
-    res.floors = {"VIDX": 6, "KR": 9, "EO-1": 21, "WEIGHTS": 6, "FOLD": 4, "REP": 18}
+    res.floors = {"VIDX": 6, "KR": 9, "EO-1": 21, "WEIGHTS": 6, "FOLD": 4, "REP": 18, "DTYPE": 1, "WDEG": 30}
     for f in DENSE_KERNELS + SPARSE_KERNELS:
         prog.func(f)
     vidx(prog, res)
@@ -199,6 +361,14 @@ def check(prog: Program, res: Result, tier: str) -> None:
     E.eo1(prog, res, lambda fi: fi.short in DENSE_KERNELS + SPARSE_KERNELS)
     weights_rule(prog, res)
     fold(prog, res)
+    wdeg(prog, res)
+    dtype_rule(prog, res)
+    from ..report import Result as _R
+    probe = _R("C02")
+    dtype_rule(prog, probe, ast.parse(DTYPE_FIXTURE))
+    fx = [(i.verdict, i.descriptor) for i in probe.instances]
+    if sorted(v for v, _ in fx) != ["OK", "VIOLATION"]:
+        raise AnalysisError(f"DTYPE positive fixture not recognised: {fx}")
     for cls, (req, methods) in REP.items():
         E.rep(prog, res, cls, req, methods)
     I.ix_rules(prog, res, lambda fi: fi.short in SPARSE_KERNELS, ("SC", "IX-dom", "IX-seq"))
